@@ -12,7 +12,7 @@ DEDUCTIVE = ['vsg.rules.token_case.token_case._fix_violation', 'vsg.rules.whites
 def run():
     c = Check("C10", "other")
     c.engine = Engine()
-    c.deductive(sorted(set(DEDUCTIVE + _pipeline.fix_bases(c.engine))))
+    c.deductive(sorted(set(DEDUCTIVE + _pipeline.fix_bases(c.engine))), _pipeline.fix_base_search(c.engine, c.seed))
     _pipeline.pipeline_part(c, "C10")
     # the contract of vhdlFile.update on the real method with real token objects (stand-in if update leaves the subset,
     # cross-check otherwise): splice semantics and "index rebuilt from the new list iff bUpdateMap"
